@@ -62,9 +62,10 @@ Definition uf_read (s : uf) (n : Z) : uf * list Z * list nat :=
   let n' := if beyond then u_fsz s - u_tellg s else n in
   let '(tg, bytes) := read_loop (S (length (u_data s))) (u_data s) (u_tellg s) n' [] in
   ({| u_abort := u_abort s; u_data := u_data s; u_tellg := tg; u_tellp := u_tellp s;
-      u_gcount := tg - u_tellg s; u_fsz := u_fsz s; u_buf := u_buf s;
+      u_gcount := tg - u_tellg s; u_fsz := u_fsz s;
+      u_buf := if u_buf s <? n then n else u_buf s;      (* a request larger than the buffer grows the buffer (before waiting) *)
       u_rd := if beyond then 6 else if 0 <? n then 0 else u_rd s;      (* a zero-length read leaves the state as it was *)
-      u_dcs := u_dcs s |}, bytes, [CVU_tellg]).
+      u_dcs := u_dcs s |}, bytes, [CVU_tellg; CVU_tellg]).
 
 Definition uf_tellg_val (s : uf) : Z := if Z.land (u_rd s) 5 =? 0 then u_tellg s else -1.
 Definition uf_tellp_val (s : uf) : Z := if Z.land (u_rd s) 5 =? 0 then u_tellp s else -1.
